@@ -15,26 +15,26 @@ open Lace Cli
 /-- A source for which `check` reports success always compiles (given a writable destination). -/
 theorem check_ok_imp_compile_ok (p : Parsed) (c : Option (List Nat)) :
     checkStatus p = 0 → (compile p (.file c)).1 = 0 := by
-  unfold checkStatus compile
+  unfold checkStatus compile compileFs
   cases h : assembleOk p with
   | none => simp
-  | some ow => simp [applyOp]
+  | some ow => simp [writeAllOrNothing, applyOps, applyOp, writeLimited]
 
 /-- A source that `compile` rejects is reported as an error by `check` and by `run`. -/
 theorem compile_err_imp_check_err_and_run_err (p : Parsed) (c : Option (List Nat)) :
     (compile p (.file c)).1 ≠ 0 → checkStatus p ≠ 0 ∧ runAssembles p = false := by
-  unfold checkStatus compile runAssembles
+  unfold checkStatus compile compileFs runAssembles
   cases h : assembleOk p with
   | none => simp
-  | some ow => simp [applyOp]
+  | some ow => simp [writeAllOrNothing, applyOps, applyOp, writeLimited]
 
 /-- The three commands agree exactly. -/
 theorem check_compile_run_agree (p : Parsed) (c : Option (List Nat)) :
     (checkStatus p = 0 ↔ (compile p (.file c)).1 = 0) ∧ (checkStatus p = 0 ↔ runAssembles p = true) := by
-  unfold checkStatus compile runAssembles
+  unfold checkStatus compile compileFs runAssembles
   cases h : assembleOk p with
   | none => simp
-  | some ow => simp [applyOp]
+  | some ow => simp [writeAllOrNothing, applyOps, applyOp, writeLimited]
 
 /-- An emission-only error at statement `k` (label farther than its field allows) is reported
 by `check`, not only by `compile`. -/
